@@ -654,6 +654,12 @@ for _pid in ("C15", "C20"):
 SPECS["C03"]["parts"].append([dict(p) for p in SPECS["C14"]["parts"] if p["name"] == "stream"][0])
 SPECS["C03"]["parts"].append([dict(p) for p in SPECS["C15"]["parts"] if p["name"] == "udp-multi-route"][0])
 
+SPECS["C03"]["parts"].append(router_part("query-sizes", "TestVerifC03Sizes", ["zz_verif_c03sizes_test.go", "zz_verif_c03_test.go"],
+                                         params={"quick": {"SIZELO": 1000, "SIZEHI": 1040}, "thorough": {"SIZELO": 12, "SIZEHI": 4200}}, budget={"quick": 60, "thorough": 600}))
+
+# what one DoH reply leaves behind in pooled buffers must not become (part of) the next exchange's answer
+SPECS["C04"]["parts"].append([dict(p) for p in SPECS["C01"]["parts"] if p["name"] == "doh-replies"][0])
+
 # --------------------------------------------------------------------------------------------
 # Properties not (yet) claimed. Kept current: every property without a SPECS entry must be here.
 NOT_APPLICABLE = {
